@@ -277,9 +277,11 @@ pub fn run_workers_with(prop: &str, tier: &str, n: usize, extra_env: &[(&str, St
         Ok(c) => total.merge(c),
         Err(e) => errors.push(format!("worker {k}: unparsable result: {e}")),
       },
-      (Some(s), _) if { use std::os::unix::process::ExitStatusExt; s.signal().is_none() } => {
-        // ordinary non-zero exit: a failure of the harness itself, never a verdict
-        errors.push(format!("worker {k} exited with {s} without a result; stderr tail:\n{err}"));
+      (Some(s), _) if { use std::os::unix::process::ExitStatusExt; !matches!(s.signal(), Some(4 | 6 | 7 | 8 | 11)) } => {
+        // ordinary non-zero exit, or killed from outside (SIGKILL by the OOM killer, SIGTERM):
+        // a failure of the harness itself, never a verdict. Only SIGILL/ABRT/BUS/FPE/SEGV
+        // can come from the subject.
+        errors.push(format!("worker {k} ended with {s} without a result (harness failure or killed from outside); stderr tail:\n{err}"));
       }
       (st, _) => {
         // killed by a signal (abort, segfault) or hang: locate the case
